@@ -87,4 +87,8 @@ theorem C05_events_are_installs {W : World} {P : Params} {sl : Slots} {w : List 
 theorem C05_serial_facts : (∀ n, Facts.nextSerial n = n + 1) ∧ (∀ n, Facts.eventSerial n = Facts.nextSerial n) :=
   ⟨fun _ => rfl, fun _ => rfl⟩
 
+/-- regenerated fact F4v: the model's view step reads the pair (serial, config) in ONE atomic step (`C05_pair_atomic`);
+ViewVersion does that with exactly one atomic load of the versioned pointer and no other call -/
+theorem C05_view_version_is_one_load : Facts.viewVersionLoads = 1 ∧ Facts.viewVersionOtherCalls = 0 := ⟨rfl, rfl⟩
+
 end Dials.C05
